@@ -416,6 +416,13 @@ impl Options {
     /// - Normalizes option-parameter formats (e.g., `-o FILE` → `-o=FILE`)
     /// - Handles attached parameters (e.g., `-oFILE` → `-o=FILE`)
     pub fn normalize_options(&self, args: &[String]) -> Result<Vec<String>> {
+        self.normalize(args, false)
+    }
+
+    /// `normalize_options` for the words of a usage pattern when `keep_separators` is set: there a
+    /// `)`, `]` or `|` after an option with a parameter is syntax, on the command line it is the
+    /// parameter and nothing else.
+    fn normalize(&self, args: &[String], keep_separators: bool) -> Result<Vec<String>> {
         let mut is_antepenultimate_with_param = false;
         args.iter()
             .flat_map(|arg| {
@@ -483,7 +490,7 @@ impl Options {
                 } else if is_antepenultimate_with_param {
                     is_antepenultimate_with_param = false;
                     match previous_arg.as_str() {
-                        ")" | "]" | "|" => Some(Ok(previous_arg.to_owned())),
+                        ")" | "]" | "|" if keep_separators => Some(Ok(previous_arg.to_owned())),
                         _ => None,
                     }
                 } else {
@@ -504,12 +511,13 @@ impl Options {
         let represented_usages = usages
             .iter()
             .map(|usage| {
-                match self.normalize_options(
+                match self.normalize(
                     &usage
                         .replace('|', " | ")
                         .split_whitespace()
                         .flat_map(|w| split_keeping_separators(w, &['[', ']', '(', ')']))
                         .collect::<Vec<_>>(),
+                    true,
                 ) {
                     Ok(expanded_usage) => Some(
                         expanded_usage
